@@ -679,3 +679,30 @@ _inst_before_bounded = instances
 
 def instances(tier):       # noqa: F811
     return _inst_before_bounded(tier) + [shapes_bounded_instance()]
+
+
+_instances_before_history4 = instances
+
+
+def instances(tier):       # noqa: F811
+    from .common import with_history
+    from pb_bss.extraction import beamformer as bf
+
+    def warm():
+        rng = np.random.RandomState(6)
+        for F, D in ((3, 4), (1, 3), (5, 2)):
+            a = rng.normal(size=(F, D, D)) + 1j * rng.normal(size=(F, D, D))
+            tgt = a @ np.conj(np.swapaxes(a, -1, -2))
+            b = rng.normal(size=(F, D, D)) + 1j * rng.normal(size=(F, D, D))
+            noi = b @ np.conj(np.swapaxes(b, -1, -2)) + np.eye(D)
+            bf.get_mvdr_vector_souden(tgt, noi, ref_channel=D - 1)
+            bf.get_mvdr_vector_souden(tgt, noi)
+            bf.get_wmwf_vector(tgt, noi, reference_channel=0, distortion_weight=2.0)
+            bf.get_mvdr_vector(a[..., 0], noi)
+            bf.get_lcmv_vector(np.moveaxis(a[..., :2], -1, 0), [1, 0], noi)
+    extra = [with_history(souden_instance(2, 2, 'value', ref=1), warm, 'other-sizes'),
+             with_history(wmwf_instance(2, 1, 'value', ref=0), warm, 'other-sizes'),
+             with_history(mvdr_instance(2, 2), warm, 'other-sizes'),
+             with_history(lcmv_instance(2, 2, 1), warm, 'other-sizes')]
+    return _instances_before_history4(tier) + extra
+
